@@ -59,6 +59,11 @@ CLAIMS = {
   text="Proved in Lean for every network whose nodes keep no hidden memory outside their state (guard NoHidden, theorems named _partial), every order, clean store, from_state, reset flag and input sequence: a run with stateful=False returns exactly the store it started from - same states, memories, no proxy, no clamp (C08_stateless_run_noop_partial) - hence the same operation repeated gives the same result (C08_repeat_same_partial); the same holds when the run raises at ANY step k after ANY set of already evaluated nodes, given try/finally unwinding (C08_stateless_fail_noop_partial); from_state is overwrite-then-run (C08_from_state); reset makes two stores that differ only in model states equal, i.e. a reset model is a fresh one (C08_reset_fresh); the guard is necessary: a kernel-checked witness shows a node with hidden memory violating repeat-same (C08_hidden_leak_witness, finding K4). Tied to the code by random histories of call / run / run inside with_state / reset / reset(to_state) with every flag combination on single nodes and on the feedback models of C05, a node whose forward raises at a chosen step, every stateless operation repeated, reset-vs-fresh-twin runs: all states after every operation and all outputs are compared exactly with the model, and the property is evaluated directly (state() unchanged, repeat equal, reset = fresh).",
   note="Trusted: Lean kernel + standard axioms; lean/RpyModel/Dataflow.lean; the harness. The failure model assumes try/finally unwinding (defect D4, repaired by a fix commit; its witness is a permanent corpus case). Hidden-memory kinds (external-equation reservoirs, NVAR, Delay) are finding K4: mirrored by the model, reported as KNOWN-FINDING only when the outputs equal the model's.",
   design="§6 C08"),
+ "C06": dict(
+  technique="Lean 4 proof (invariant of the staging loop for every DAG; induction over time relating the step-by-step run to node-by-node runs; gating of the online loop) + correspondence with the exact explicit procedure computed by the Lean driver and with a node-level explicit procedure on twins",
+  text="Proved in Lean: for every DAG, every choice of offline nodes and every node order, the staging of Model.fit trains only offline nodes and each at most once, runs each node forward at most once, trains or runs a node only after all its parents were run, and runs an offline node forward only after it was trained - no node ever consumes the output of an unfitted readout (C06_stage_invariants, from the per-pass invariant sinv_pass and the loop invariant sinv_loop); running a feed-forward model step by step gives every node exactly the output sequence the node produces when run alone on the sequence of its inputs (C06_nodewise_eq_stepwise: the step-by-step run inside fit IS the explicit node-by-node procedure); Model.train applies the rule on exactly the steps i % learn_every = 0 of the sequence and returns pre-update predictions (C06_train_refines_loop); an array and the equivalent name-keyed mapping are the same input (C06_array_eq_mapping). Tied to the code by fitting chains, deep models with 2-3 readouts, parallel readouts, input-to-readout shortcuts, teacher-forced feedback from a readout of the same or a later stage, force_teachers on/off and the ESN node (incl. refits) on 1-3 sequences with warm-up and array/mapping targets, and comparing every readout (1e-9) with the explicit procedure evaluated in exact rationals by the driver and with the explicit procedure written with node-level calls on twin nodes; Model.train (RLS/LMS/FORCE behind a reservoir, learn_every 1-3, array or one-key mapping inputs/targets) against the explicit per-step loop.",
+  note="Trusted: Lean kernel + standard axioms; the Lean models and the driver glue lean/RpyModel/Drv/C06.lean; the harness. NOT proved: the composition 'staged fit as a whole = explicit procedure' (C06_fit_refines_explicit of the design) - carried by the correspondence. Finding K2 (ESN(use_raw_inputs=True).fit raises) is reported as KNOWN-FINDING; defects D3 and D14 were repaired by fix commits and stay as corpus cases.",
+  design="§6 C06"),
 }
 
 NOT_YET = "check not built yet in this revision (planned, see DESIGN.md §11)"
